@@ -692,9 +692,20 @@ theorem printArgVal_time_frac (fuel : Nat) (opt : POpt) (v secs frac : Nat) (mor
           (fracTok (localtime (secs : Int)) dfr (fmtA (promote b))).length) := by
   generalize hprecd : (if opt.prec < 1 then 1 else opt.prec) = prec
   have hprec0 : prec ≠ 0 := by rw [← hprecd]; split <;> omega
-  obtain ⟨ip, dfr, hnum, hdw, hdfr, hlen⟩ := fmtF_fracTxt prec (promote b) hprec0 hB.fin hB.pos
+  obtain ⟨ip, dfr0, hnum, hdw, hdfr0, hlen0⟩ := fmtF_fracTxt prec (promote b) hprec0 hB.fin hB.pos
   obtain ⟨xfr, eds, hA, hxfr, hstrip, hene, heds, _, _⟩ := fmtA_fracRep frac _ hB
   have hrtz := removeTrailingZeroes_hexTxt_tail 49 xfr true eds ⟨by decide, hxfr, hene, heds⟩ hstrip (lit "s)")
+  -- fix C10-17: the digits are all '9' when the decimal text has rounded up to "1.00…"
+  generalize hdfr' : (if hd (fmtF false prec (promote b)) ≠ 48 then List.replicate dfr0.length 57 else dfr0) = dfr
+  have hlen : dfr.length = prec := by
+    rw [← hdfr']; split <;> simp [hlen0]
+  have hdfr : ∀ c ∈ dfr, isdigit c = true := by
+    rw [← hdfr']; split
+    · intro c hc; rw [List.eq_of_mem_replicate hc]; decide
+    · exact hdfr0
+  have hfrac : (if hd (fmtF false prec (promote b)) ≠ 48 then 46 :: List.replicate ((46 :: dfr0).length - 1) 57
+      else 46 :: dfr0) = 46 :: dfr := by
+    rw [← hdfr']; split <;> simp
   have hdne : dfr ≠ [] := by
     intro h0; rw [h0] at hlen; simp at hlen; omega
   refine ⟨dfr, hdne, hdfr, ?_⟩
@@ -705,6 +716,8 @@ theorem printArgVal_time_frac (fuel : Nat) (opt : POpt) (v secs frac : Nat) (mor
   simp only [ne_eq] at hdw
   rw [← hA] at hrtz
   simp only [hdw, hrtz, true_or, ↓reduceIte, List.isEmpty_cons, Bool.false_eq_true]
+  simp only [ne_eq] at hfrac
+  rw [hfrac]
   generalize localtime (secs : Int) = tm
   have hout : fmtDate tm ++ 32 :: fmtHM tm ++ 58 :: fmtS tm ++ 46 :: dfr ++ lit " (...+" ++
       (fmtA (promote b) ++ lit "s)") = fracTok tm dfr (fmtA (promote b)) := by
